@@ -117,6 +117,67 @@ def _pool(fn, jobs, n=None):
         return list(ex.map(fn, jobs))
 
 
+def _thread_runner(args):
+    """one pool process: `nthreads` threads drive the library at the same time, each on its OWN jobs and objects"""
+    import importlib
+    import sys
+    import threading
+    modname, fnname, jobs, nthreads, switch = args
+    fn = getattr(importlib.import_module(modname), fnname)
+    drv.THREADED = True
+    old = sys.getswitchinterval()
+    sys.setswitchinterval(switch)
+    results = [None] * len(jobs)
+    errors = []
+    start = threading.Barrier(nthreads)
+
+    def work(k):
+        start.wait()
+        for i in range(k, len(jobs), nthreads):
+            try:
+                results[i] = fn(jobs[i])
+            except BaseException as ex:  # noqa
+                import traceback
+                errors.append(traceback.format_exc()[-1500:])
+                results[i] = None
+    ts = [threading.Thread(target=work, args=(k,), daemon=True) for k in range(nthreads)]
+    for t in ts:
+        t.start()
+    for t in ts:
+        t.join(900)
+    sys.setswitchinterval(old)
+    drv.THREADED = False
+    if any(t.is_alive() for t in ts):
+        errors.append('a harness thread did not finish within 900 s')
+    return results, errors
+
+
+def threaded(modname, fnname, jobs, nthreads=4, switch=1e-6, procs=None):
+    """Run driver `fnname` of module `modname` over `jobs` with several threads at once inside each of a few pool
+    processes (thread switches every microsecond).  Every thread works on its own jobs, files and library objects: what
+    one thread does may not show in what another records.  Returns the results in job order."""
+    if not jobs:
+        return []
+    procs = procs or max(1, min(core.NCPU // 2, len(jobs) // nthreads))
+    groups = [g for g in core.split(list(range(len(jobs))), procs) if g]
+    args = [(modname, fnname, [jobs[i] for i in g], min(nthreads, len(g)), switch) for g in groups]
+    outs = _pool(_thread_runner, args)
+    res = [None] * len(jobs)
+    for g, (r, errs) in zip(groups, outs):
+        if errs:
+            raise core.MachineryError('threaded driver %s.%s failed in the harness itself:\n%s' % (modname, fnname, errs[0]))
+        for i, x in zip(g, r):
+            res[i] = x
+    return res
+
+
+def mark_threaded(outs, n=4):
+    for o in outs:
+        for t in (o or []):
+            t['_desc'] = str(t.get('_desc')) + ' [%d threads at once, each on its own objects]' % n
+    return outs
+
+
 def pool_optimised(modname, fnname, jobs):
     """the same driver in a `python -O` child (assert statements removed from the library)"""
     import pickle
